@@ -70,7 +70,7 @@ theorem saveAt_eq (t q : Nat) (mid tg : Bytes) (ho : Option Nat) (vmaj : Nat) (h
     (hh : Id3F.headerSize tg = .ok ho) (hlen : ho.getD 0 = tg.length) (p : Nat)
     (hp : getPadding pad ((tg.length : Int) - (frames.length + 10 : Nat)) 0 = p)
     (hd : Bytes) (hhd : Id3F.header vmaj (frames.length + p) = .ok hd) (hd10 : hd.length = 10)
-    (hsize : 28 + mid.length + 10 + frames.length + p < 2 ^ 64) :
+    (hsize : 28 + mid.length + 10 + frames.length + p < 2 ^ 64) (hfit : frames.length + p < 2 ^ 28) :
     saveAt (dsdChunk t q ++ mid ++ tg) (28 + mid.length) vmaj frames pad =
       .ok (dsdChunk (28 + mid.length + (10 + frames.length + p)) (28 + mid.length) ++ mid ++ (hd ++ frames ++ zeros p)) := by
   have hpre : (dsdChunk t q ++ mid).length = 28 + mid.length := by simp
@@ -86,7 +86,11 @@ theorem saveAt_eq (t q : Nat) (mid tg : Bytes) (ho : Option Nat) (vmaj : Nat) (h
   simp only [Int.lt_irrefl, ↓reduceIte, Int.toNat_zero, hp]
   have h3 : ¬ ((p : Int) < 0) := by omega
   rw [if_neg h3]
-  simp only [Int.toNat_natCast, hhd]
+  have h5 : ¬ (frames.length > 2 ^ 28 - 1) := by omega
+  rw [if_neg h5]
+  have hmin : min (p : Int).toNat (2 ^ 28 - 1 - frames.length) = p := by
+    rw [Int.toNat_natCast]; omega
+  simp only [hmin, hhd]
   have hwt : writeTrunc (dsdChunk t q ++ mid ++ tg) (28 + mid.length) (hd ++ frames ++ zeros p) =
       dsdChunk t q ++ (mid ++ (hd ++ frames ++ zeros p)) := by
     unfold writeTrunc
@@ -210,13 +214,13 @@ theorem save_layout (L : Layout) (h : L.OK) (vmaj : Nat) (hvm : vmaj = 3 ∨ vma
     rw [writeDsd_render _ _ _ _ _ (by omega) (by omega)]
     simp only []
     have := saveAt_eq L.total (28 + (L.fmt ++ L.data).length) (L.fmt ++ L.data) [] ho vmaj hvm frames pad
-      (by rw [← ht]; exact hho) (by rw [hlen, ht]) p (by simpa [ht] using hp) hd hhd hd10 hsz
+      (by rw [← ht]; exact hho) (by rw [hlen, ht]) p (by simpa [ht] using hp) hd hhd hd10 hsz hfit
     simpa [List.append_assoc] using this
   · have hpp : L.pointer = 28 + (L.fmt ++ L.data).length := by simp [Layout.pointer, ht, htp]
     have hne : ¬ (28 + (L.fmt ++ L.data).length = 0) := by omega
     simp only [hpp, hne, ↓reduceIte]
     have := saveAt_eq L.total (28 + (L.fmt ++ L.data).length) (L.fmt ++ L.data) L.tag ho vmaj hvm frames pad
-      hho hlen p hp hd hhd hd10 hsz
+      hho hlen p hp hd hhd hd10 hsz hfit
     simpa [List.append_assoc] using this
 
 
